@@ -671,10 +671,9 @@ def drive(w, plan, max_steps=3000):
                     w.rec('D', 'until', t, 'ValueError', trig, now0)
                 else:
                     w.rec('D', 'until', t, 'exc', san(e), now0)
-                    _finish_until(w, max_steps)
             except (Exception, HarnessAbort) as e:
+                # the call is over (abandoned by an exception of the program); its stop must not end a later run
                 w.rec('D', 'until', t, 'exc', san(e), now0)
-                _finish_until(w, max_steps)
         elif k in ('until_ev', 'until_cond'):
             if k == 'until_cond':
                 # the caller waits for a combination of events: a condition built outside any process
